@@ -228,6 +228,11 @@ class Runner(object):
             except Exception:
                 self.append_info = None
             lst.append(self.obj(xh))
+            try:
+                items = list(lst)
+                self.alias_info = self.same_h5(items[-1], self.obj(xh)) if items else "the list is empty after the append"
+            except Exception as exc:
+                self.alias_info = "reading the list back raised " + type(exc).__name__
             return None
         if t == "remove":
             _, ph, l, k = op
@@ -250,6 +255,13 @@ class Runner(object):
                 p.data = x
             elif r == "RSectionLink":
                 p.link = x
+            if x is not None:
+                try:
+                    got = {"RMetadata": lambda: p.metadata, "RPositions": lambda: p.positions, "RExtents": lambda: p.extents,
+                           "RFeatureData": lambda: p.data, "RSectionLink": lambda: p.link}[r]()
+                    self.alias_info = self.same_h5(got, x)
+                except Exception as exc:
+                    self.alias_info = "reading the link back raised " + type(exc).__name__
             return None
         if t == "set_attr":
             _, ph, a, v = op
@@ -739,10 +751,21 @@ class Runner(object):
                     out.append(x.id)
         return out
 
+    @staticmethod
+    def same_h5(a, b):
+        """None when a and b are the same HDF5 object (not merely objects with the same id attribute), else what differs"""
+        ha = a._h5dataset.dataset if hasattr(a, "_h5dataset") else a._h5group.group
+        hb = b._h5dataset.dataset if hasattr(b, "_h5dataset") else b._h5group.group
+        if ha == hb:                      # h5py compares object identity (the file and the object's address)
+            return None
+        return "the entity reached through the link (%r) is not the entity that was linked (%r)" % (
+            getattr(a, "name", None), getattr(b, "name", None))
+
     def run_op(self, op):
         self.oracle = "n/a"
         self.copy_event = None
         self.append_info = None
+        self.alias_info = None
         tid = None
         if op[0] in ("set_attr", "set_link", "force", "append", "remove", "create", "create_mtag", "create_feature", "delete") \
                 and op[1] < len(self.handles):
@@ -775,6 +798,8 @@ class Runner(object):
         self.last_all_ids = set(ids)
         if self.append_info is not None:
             info["append"] = self.append_info
+        if self.alias_info is not None:
+            info["alias"] = self.alias_info
         if self.track_pairs:
             info["copy"] = self.copy_event
             if op[0] == "reopen":
